@@ -7,7 +7,9 @@
           src/primitives/polyline/mod.rs (`Dimensions::bounding_box`).
   The style is `PrimitiveStyle::with_stroke(colour, width)` (polylines have no fill; the stroke
   alignment is ignored by `ThickSegmentIter::new`); the colour is not part of the model.
-  Outer `none` = a loop bound of `Line::extents` was exceeded ("stuck").
+  Outer `none` = a loop bound of `Line::extents` or a step budget of the scanline iterators was
+  exceeded ("stuck"); it never happens: `styledBoundingBox_total`, `drawStyled_total`,
+  `pixels_total` (EG/Lemmas/JoinsTotalPoly.lean), for every polyline and width.
 -/
 import EG.Model.ThickSegment
 import EG.Model.Polyline
